@@ -236,6 +236,12 @@ def first_repeat(seq):
     return None
 
 
+import weakref
+
+_LAST_BUFFERS = weakref.WeakKeyDictionary()  # estimator -> the (X, y) array objects of its previous fit through this helper
+BUFFER_REUSE = [0]  # fits that received the very array objects of the previous fit, holding new numbers
+
+
 def fit(est, X, y, spec, warm=False):
     from . import forms
 
@@ -251,6 +257,26 @@ def fit(est, X, y, spec, warm=False):
         np.random.seed(int(spec["global_seed"]))  # the caller seeds NumPy's global generator and leaves random_state=None
     if spec.get("npscalars") and warm:
         warm = np.bool_(True)  # a flag that comes out of a NumPy comparison
+    # a caller that keeps ONE pair of arrays for its data: when the previous fit of this estimator (an earlier life on
+    # other data, an earlier link of a chain) received arrays of the same shape, dtype and layout, the new numbers are
+    # written into those very objects - what identifies the data is their content, not the object that holds them
+    try:
+        prev = _LAST_BUFFERS.get(est)
+    except TypeError:
+        prev = None
+    if prev is not None and isinstance(X, np.ndarray) and X.size and int(abs(float(X.flat[0])) * 1e6) % 2 == 0:  # for every other data set (the other callers hand over fresh arrays each time)
+        pX, py = prev
+        if isinstance(pX, np.ndarray) and pX.shape == X.shape and pX.dtype == X.dtype and pX.strides == X.strides and pX.flags.writeable and pX is not X:
+            pX[...] = X
+            X = pX
+            BUFFER_REUSE[0] += 1
+            if isinstance(y, np.ndarray) and isinstance(py, np.ndarray) and py.shape == y.shape and py.dtype == y.dtype and py.strides == y.strides and py.flags.writeable and py is not y:
+                py[...] = y
+                y = py
+    try:
+        _LAST_BUFFERS[est] = (X, y)
+    except TypeError:
+        pass
     try:
         if y is None:
             return est.fit(X, warm_start=warm) if warm else est.fit(X)
